@@ -44,6 +44,13 @@ def check18(ctx):
     r = model_check(ctx, "FileStore.tla", "MC_File.cfg", workers=4, heap=4, timeout=600)
     states += r["distinct"]; trans += r["generated"]
     mc.append(dict(cfg="MC_File.cfg", distinct=r["distinct"], generated=r["generated"], note="the file backend's Store protocol refines the atomic Store of Store.tla"))
+    # the contract for every set of names and clients and any number of injected errors: TLAPS proofs of inductive invariants
+    for mod in ["StoreProof.tla", "FileStoreProof.tla"]:
+        pr = run_tlapm(ctx, mod)
+        mc.append(dict(module=mod, tool="tlapm", obligations_proved=pr[0], obligations_failed=pr[1], note="informative: recorded, does not change the verdict"))
+    if not quick:
+        pr = run_tlapm(ctx, "StoreProof.tla", subst=('Backend # "s3" \\/ KeyMapping = "exact"', 'Backend = "s3" /\\ KeyMapping = "noprefix"'), name="StoreProof-noprefix")
+        mc.append(dict(module="StoreProof.tla with the key mapping without prefix", tool="tlapm", expected="failed obligations", obligations_failed=pr[1]))
     drv = build_harness(ctx)
     trace = os.path.join(ctx.scratch, "store.ndjson")
     run_driver(ctx, drv, ["store", "-seed", str(ctx.seed), "-n", "600" if quick else "9000", "-scratch", ctx.sub("files"), "-out", trace], timeout=3000)
@@ -96,6 +103,13 @@ def check17(ctx):
     mc.append(dict(cfg="MC_File.cfg", distinct=r["distinct"], generated=r["generated"]))
     r = model_check(ctx, "FileStore.tla", "MC_File_direct.cfg", expect_ok=False, workers=2, heap=2, timeout=300)
     mc.append(dict(cfg="MC_File_direct.cfg", expected="counterexample", found=r["error"]))
+    # the same three invariants for every set of writers, node length and number of faults: TLAPS proof of an inductive invariant
+    pr = run_tlapm(ctx, "FileStoreProof.tla")
+    mc.append(dict(module="FileStoreProof.tla", tool="tlapm", obligations_proved=pr[0], obligations_failed=pr[1],
+                   note="informative: recorded, does not change the verdict"))
+    if not quick:
+        pr = run_tlapm(ctx, "FileStoreProof.tla", subst=('Protocol = "rename"', 'Protocol = "direct"'), name="FileStoreProof-direct")
+        mc.append(dict(module="FileStoreProof.tla with Protocol = \"direct\"", tool="tlapm", expected="failed obligations", obligations_failed=pr[1]))
     drv = build_harness(ctx)
     trace = os.path.join(ctx.scratch, "file.ndjson")
     run_driver(ctx, drv, ["filecrash", "-seed", str(ctx.seed), "-n", "30" if quick else "400", "-scratch", ctx.sub("files"), "-out", trace], timeout=3000)
